@@ -622,12 +622,8 @@ theorem envelopesUpper_of {m a : Module} (hins : m.ins = clampC a.ins 0 epiInsMa
     · right; exact clampVol_volEnvOK _ (by omega) _
 
 theorem sustain_of {m a : Module} (hsmp : m.smp = clampC a.smp 0 maxSamples)
-    (hxxs : m.xxs = a.xxs.mapIdx fun i s =>
-      if (i : Int) < clampC a.smp 0 maxSamples then
-        (match a.xtra[i]? with | some x => (epilogueSmp s x).1 | none => s) else s)
-    (hxtra : m.xtra = a.xtra.mapIdx fun i x =>
-      if (i : Int) < clampC a.smp 0 maxSamples then
-        (match a.xxs[i]? with | some s => (epilogueSmp s x).2 | none => x) else x) :
+    (hxxs : m.xxs = a.xxs.mapIdx (smpStepS (clampC a.smp 0 maxSamples) a.xtra))
+    (hxtra : m.xtra = a.xtra.mapIdx (smpStepX (clampC a.smp 0 maxSamples) a.xxs)) :
     sustainOK m = true := by
   unfold sustainOK
   rw [allBelow_iff]
@@ -640,7 +636,7 @@ theorem sustain_of {m a : Module} (hsmp : m.smp = clampC a.smp 0 maxSamples)
     cases hx : a.xtra[i]? with
     | none => rfl
     | some x0 =>
-      simp only [Option.map_some, hlt, if_true]
+      simp only [Option.map_some, smpStepS, smpStepX, hlt, if_true, hs, hx]
       exact epilogueSmp_xtraOK s0 x0
 
 theorem orders_of {m e : Module}
@@ -807,10 +803,11 @@ theorem epilogueSmp_name (s : Sample) (x : Xtra) : (epilogueSmp s x).1.name = s.
   unfold epilogueSmp
   exact name_core s _ _
 
-theorem smpStep_name (c : Prop) [Decidable c] (o : Option Xtra) (s : Sample) :
-    (if c then (match o with | some x => (epilogueSmp s x).1 | none => s) else s).name = s.name := by
+theorem smpStepS_name (smp : Int) (xtra : List Xtra) (i : Nat) (s : Sample) :
+    (smpStepS smp xtra i s).name = s.name := by
+  unfold smpStepS
   split
-  · cases o with
+  · cases xtra[i]? with
     | none => rfl
     | some x => exact epilogueSmp_name s x
   · rfl
